@@ -23,7 +23,8 @@ DECIDED = ["D1 keyword table", "D2 parent table", "D3 routing = handling", "D4 a
            "D8 every f32 parse of a KyG column goes through the decimal-comma replacement; an optional KyG column i is read whenever the line has more than i columns",
            "D9 a quoted attribute value never reaches the number test with its quotes removed",
            "D10 a construction's ABSORPTANCE is stored on every path through the loop that merges CONSTRUCTION and LAYERS blocks",
-           "D11 the record loops of tbl::parse test the header's count before reading a record"]
+           "D11 the record loops of tbl::parse test the header's count before reading a record",
+           "D12 the default tilt of an opaque element without TILT, for every (block type, LOCATION) cell"]
 UNDECIDED = ["everything else lexical: comments, blank lines, CRLF, multi-line lists, number formats, names that look like numbers"]
 ASSUMPTIONS = ["the attribute rows in ctecheck/spec/bdl_schema.py were transcribed from the doc-comment examples and the code of the pinned commit and reviewed"]
 LEVEL_TEXT = ("Partial (tables only): the keyword, parent, routing and attribute tables through which 'every value written in the file is recovered' are read from MIR and "
@@ -292,6 +293,7 @@ def run(ctx):
     check_quoted_values(ctx, prog)
     check_construction_absorptance(ctx, prog)
     check_tbl_counts(ctx, prog)
+    check_default_tilt(ctx, prog)
     # ---------------- D4
     from ..spec.bdl_schema import ROWS
     now = attr_rows(prog)
@@ -676,6 +678,64 @@ def check_tbl_counts(ctx, prog, rule="c18.tbl"):
             ctx.violation(rule, key, "the loop parses a record and only then compares the number read with the header's count (%s): for a count of 0 it still takes a record "
                           "(`0 1`: the zone is read as an element and the file rejected) and then never stops at the count" % show(cmps[0][1])[:60], fn.loc(info["line"]))
     ctx.floor(rule, "record loops of tbl::parse", n, 2)
+
+
+def check_default_tilt(ctx, prog, rule="c18.default"):
+    """"with the documented legacy defaults when an attribute is absent": an opaque element without TILT gets its tilt from what it is and where it is -
+    a ROOF and anything with LOCATION = TOP is horizontal facing up (0), LOCATION = BOTTOM faces down (180), everything else is vertical (90).  The decision
+    in Wall::try_from is walked for every (block type, LOCATION) cell with the TILT attribute absent, and the constant stored in `tilt` is compared."""
+    from .c06 import local_defs
+    f = prog.method("bdl::envelope::walls::Wall", "TryFrom", "try_from")
+    sc = Scope(prog, f)
+    body = f.body
+    names = [v["name"] for v in prog.adt("hulc::bdl::blocks::BdlBlockType")["variants"]]
+    start = None
+    for b, t in body.calls():
+        if short_callee(callee_name(t) or "") == "remove_f32" and any(strip(sc.operand(a))[0] in ("s", "k") and str(strip(sc.operand(a))[1]) == "TILT" for a in t["args"]):
+            start = t.get("to")
+    ctx.require(start is not None, "Wall::try_from: the read of the TILT attribute was not found")
+    defs = [d for l, ds in local_defs(sc, "tilt").items() for d in ds]
+    consts = {b: float(n[1]) for (b, n, ln) in defs if n[0] == "k"}
+    targets = set(b for (b, n, ln) in defs)
+    ctx.require(len(consts) >= 2, "Wall::try_from: the default values of `tilt` are not constants assigned to a local called tilt (%d found)" % len(consts))
+    want = {}
+    for bt in ("Roof", "ExteriorWall", "InteriorWall", "UndergroundWall"):
+        for loc in (None, "TOP", "BOTTOM", "SIDE"):
+            want[(bt, loc)] = 0.0 if (bt == "Roof" or loc == "TOP") else 180.0 if loc == "BOTTOM" else 90.0
+    bad = []
+    for (bt, loc), w in sorted(want.items(), key=str):
+        if bt not in names:
+            continue
+
+        def atom_value(n, bt=bt, loc=loc):
+            n = strip(n)
+            if n[0] == "discr":
+                s_ = show(strip(n[1]))
+                if s_.endswith("btype"):
+                    return str(names.index(bt))
+                if "TILT" in s_:
+                    return "0"
+                if "location" in s_.lower():
+                    return "0" if loc is None else "1"
+            if n[0] == "call" and short_callee(n[1]) in ("eq", "ne") and "location" in show(n).lower():
+                lits = [str(strip(a)[1]) for a in n[2] if strip(a)[0] in ("s", "k")]
+                if lits:
+                    r = (loc == lits[0])
+                    return "1" if (r if short_callee(n[1]) == "eq" else not r) else "0"
+            return None
+        r = TB.walk_decision(sc, start, atom_value, targets)
+        if isinstance(r, tuple) and r and r[0] == "stuck":
+            raise AnalysisError("Wall::try_from: the default tilt depends on %s, which is neither the block type nor LOCATION: not a decision this rule reads" % show(r[1])[:80])
+        got = consts.get(r)
+        if got != w:
+            bad.append((bt, loc, got, w))
+    key = "%s|Wall.TILT" % rule
+    if bad:
+        bt, loc, got, w = bad[0]
+        ctx.violation(rule, key, "an opaque element of type %s with LOCATION %s and no TILT gets tilt %s, the documented default is %s (%d of %d cells differ): a roof or floor "
+                      "defined by its polygon alone is turned" % (bt, loc or "absent", got, w, len(bad), len(want)), f.loc())
+    else:
+        ctx.ok(rule, key, "without TILT: ROOF or LOCATION = TOP -> 0, LOCATION = BOTTOM -> 180, otherwise 90 (all %d (type, LOCATION) cells)" % len(want), f.loc())
 
 
 def check_parents(ctx, prog, fn, variants, spec, rule="c18.parent"):
